@@ -134,6 +134,7 @@ pub fn parse_strict(req: &[u8], raw: &[u8]) -> Result<Resp, Vec<String>> {
 pub enum Scripted {
     Ok200,
     Err,
+    ErrText(u8),
     Panic,
     /// unwinds with a payload that is neither &str nor String (std::panic::panic_any)
     PanicAny,
@@ -149,6 +150,7 @@ impl Application for Scripted {
                 Ok(Response::get_response(STATUS_CODE_REASON_PHRASE.n200_ok, Some(hl), Some(vec![cr])))
             }
             Scripted::Err => Err("scripted application error".to_string()),
+            Scripted::ErrText(i) => Err(crate::corpus::err_text(*i)),
             Scripted::Panic => panic!("scripted application panic"),
             Scripted::PanicAny => std::panic::panic_any(7u32),
             Scripted::Unregistered => {
